@@ -453,8 +453,6 @@ func (x *Exec) native(name string, fn *ssa.Function, args []Value) (Value, bool)
 			store(s.a.e[s.off+i], strOf(vals[i]))
 		}
 		return nil, true
-	case "reflect.TypeOf":
-		return opaqueIface, true
 	case "math/rand.NewSource":
 		return Iface{}, true
 	case "math/rand.New":
